@@ -67,6 +67,17 @@ def gen_cases(rng, tier):
             # 2xx: forks and retransmissions around 64*T1
             for d in (1, 31999, 32001):
                 cases.append(_case("s%d" % n, rel, [(300, 200, "a"), (300 + d, 200, "b"), (300 + d + 5, 200, "a")], route)); n += 1
+    # an answer that arrives while the caller is still inside the first send (the bytes are out, the flush has not returned): it belongs
+    # to this transaction; a non-2xx final is ACKed once and reported, a 2xx is handed up
+    for rel in (0, 1):
+        for code in (180, 200, 404, 486, 603):
+            for (t, linger) in ((10, 20), (1, 400)):
+                c = _case("lng%d" % n, rel, [(t, code, "a")], ROUTES[n % len(ROUTES)]); n += 1
+                c[7] = ""
+                while len(c) < 11:
+                    c.append("")
+                c[10] = str(linger)
+                cases.append(c)
     nrand = 60 if tier == "quick" else 2000
     for i in range(nrand):
         rel = rng.choice([0, 1])
@@ -89,7 +100,7 @@ def model_case(case, impl):
     for part in impl.split("\t")[1:]:
         if part.startswith("INVITE:"):
             inv = part[len("INVITE:"):]
-    return case[:7] + [inv]
+    return c05.model_case(case, impl)[:7] + [inv]
 
 
 def _show_fields(hexs):
@@ -133,7 +144,7 @@ def oracle(case, impl):
     """property text applied to the raw ACK bytes' header lines, independent of the model"""
     if "A!dest" in impl.split("\t")[0]:
         return ["an ACK was sent to another address than the one the INVITE was sent to (responses from %s)" % (case[8] if len(case) > 8 else "d")]
-    v = c05.oracle(case[:6], impl)
+    v = c05.oracle(case[:6] + ([""] * 4 + [case[10]] if len(case) > 10 else []), impl)
     if v:
         return v
     parts = impl.split("\t")
@@ -146,7 +157,7 @@ def oracle(case, impl):
             acks.append(_show_fields(p[4:]))
     if inv is None:
         return ["no INVITE on the wire"]
-    kind, rel, arrs, horizon = c05._parse(case[:6])
+    kind, rel, arrs, horizon = c05._parse(case)
     tags = [a.split(":")[2] for a in case[4].split(",") if a]
     # which arrivals must have been ACKed: the first non-2xx final and, unreliable, its repeats within 32 s
     acked = []
@@ -180,7 +191,7 @@ def oracle(case, impl):
 
 
 def nontrivial(case, impl):
-    kind, rel, arrs, horizon = c05._parse(case[:6])
+    kind, rel, arrs, horizon = c05._parse(case)
     if any(c >= 200 for (_, c) in arrs):
         return "\t".join(case[2:])
     return None
